@@ -110,6 +110,44 @@ func c01Classify(err error) int64 {
 // It runs Noise XX with flynn/noise directly and puts whatever mk returns into
 // its handshake payload; it validates nothing.
 func c01Evil(c net.Conn, initiator bool, prologue []byte, mk func(static []byte) []byte) error {
+	return c01EvilCapture(c, initiator, prologue, mk, nil)
+}
+
+// recorded signatures of honest peers: [key type][name-1], harvested from a real
+// session in which the honest peer (as responder) talked to the malicious endpoint
+var c01Recorded [4][3][]byte
+var c01RecordedMu sync.Mutex
+
+func c01RecordedSig(kt, name int) []byte {
+	c01RecordedMu.Lock()
+	defer c01RecordedMu.Unlock()
+	if c01Recorded[kt][name-1] != nil {
+		return c01Recorded[kt][name-1]
+	}
+	w := w01.NewWorld()
+	a, b := w.Pipe("evil", "victim")
+	w.Add(2)
+	var captured []byte
+	done := make(chan struct{})
+	go func() {
+		defer close(done)
+		defer w.Done()
+		tpt, err := New(ID, c01Keys[kt][name-1], nil)
+		if err == nil {
+			tpt.SecureInbound(context.Background(), b, "")
+		}
+	}()
+	c01EvilCapture(a, true, nil, func(static []byte) []byte { return c01ForgedPayload(kt, 3, 3, 0, static) }, &captured)
+	w.Done()
+	<-done
+	nhp := new(pb.NoiseHandshakePayload)
+	if err := proto.Unmarshal(captured, nhp); err == nil {
+		c01Recorded[kt][name-1] = nhp.GetIdentitySig()
+	}
+	return c01Recorded[kt][name-1]
+}
+
+func c01EvilCapture(c net.Conn, initiator bool, prologue []byte, mk func(static []byte) []byte, capture *[]byte) error {
 	kp, err := fnoise.DH25519.GenerateKeypair(rand.Reader)
 	if err != nil {
 		return err
@@ -137,7 +175,10 @@ func c01Evil(c net.Conn, initiator bool, prologue []byte, mk func(static []byte)
 		if _, err := io.ReadFull(c, buf); err != nil {
 			return err
 		}
-		_, _, _, err := hs.ReadMessage(nil, buf)
+		pt, _, _, err := hs.ReadMessage(nil, buf)
+		if err == nil && capture != nil && len(pt) > 0 {
+			*capture = pt
+		}
 		return err
 	}
 	if initiator {
@@ -175,13 +216,21 @@ func c01ForgedPayload(kt int, claim, signer, sm int, static []byte) []byte {
 		case 0:
 			msg = append([]byte(payloadSigPrefix), static...)
 		case 1:
+			if signer != 3 {
+				// a signature the honest peer made in another session (over that session's static key)
+				sig = c01RecordedSig(kt, signer)
+				msg = nil
+				break
+			}
 			other := make([]byte, 32)
 			rand.Read(other)
 			msg = append([]byte(payloadSigPrefix), other...)
 		default:
 			msg = append([]byte{}, static...)
 		}
-		sig, _ = c01Keys[kt][signer-1].Sign(msg)
+		if sig == nil {
+			sig, _ = c01Keys[kt][signer-1].Sign(msg)
+		}
 	case 4:
 		sig = make([]byte, 64)
 		rand.Read(sig)
@@ -673,6 +722,15 @@ func TestVerifC01Noise(t *testing.T) {
 	}
 	close(next)
 	wg.Wait()
+	for _, kt := range types {
+		for name := 1; name <= 2; name++ {
+			if len(c01RecordedSig(kt, name)) > 0 {
+				out.Cover("noise_recorded_signature_harvested")
+			} else {
+				t.Fatalf("could not harvest a signature of peer %d (key type %d) from a real session", name, kt)
+			}
+		}
+	}
 	ekName := []string{"none", "junk", "truncate", "extend", "drop", "grow", "duplicate", "splice"}
 	clsName := map[int64]string{0: "completed", 1: "peerid_mismatch", 2: "bad_signature", 3: "bad_key_or_payload", 4: "noise_read_failed", 5: "io", 8: "panic_or_setup", 9: "unobserved"}
 	for i, l := range lines {
